@@ -99,8 +99,6 @@ def main():
             report["ran"].append("VERIF_REPO=<scratch worktree with the change> ./check %s: exit %d" % (c, rc))
     finally:
         sh("git checkout -- . && git clean -fdq -e target", cwd=WT)
-        # the translators of the checks just run wrote coq/Gen from the scratch tree: regenerate from /repo
-        sh("python3 -c \"import sys; sys.path.insert(0,'tools'); import translate, translate17; translate.regenerate_all(); translate17.regenerate()\"", cwd=VERIF)
     report["caught_by"] = [c for c in caught if caught[c]["exit"] == 1 and caught[c]["violation_lines"]]
     report["checks"] = caught
     out_dir = os.path.join(VERIF, "seeded", name)
